@@ -7,7 +7,7 @@
    flat run was generated from (74).  Kept apart from Oracle/SimOracle.v so that the other oracles do
    not depend on the proof files. *)
 From TV Require Import Base Model.Wiring Model.Ticker Model.Component Model.Sim Model.Inline Oracle.SimCheck Oracle.SimOracle
-  Proofs.InlineScopeP Proofs.InlineAllP.
+  Proofs.InlineScopeP Proofs.InlineAllP Proofs.NDetScopeP.
 Open Scope Z_scope.
 
 Definition in_inline_scope_general (p : pair_case) : list Z :=
@@ -53,3 +53,10 @@ Definition check_inline_all_is_flatten (p : pair_case) : list Z :=
        && list_eqb Pos.eqb (flat_order 40 cfg 1%positive) (map fst (l_order (level_of f 1%positive)))
     then [] else [74]
   else [].
+
+(* not checks: the cases on which the nested schedule-explicit model was compared with Model/Sim.v (code 24 of
+   Oracle/SimOracle.v), and those of them that lie in the scope of the nested schedule-independence theorem
+   ([subtree_okb], for the fuel the models run with) *)
+Definition nnsim_scope (g : sim_case * list sim_case) : list Z :=
+  let c := fst g in
+  if nnsim_applies c then (if subtree_okb (sc_cfg c) 9 1%positive then [1; 2] else [1]) else [].
